@@ -37,6 +37,7 @@ structure Ref where
 inductive Col where
   | single (name : Option Name) (input : Option Name)
   | all (input : Name)
+  | thatSingle (name : Option Name) (input : Option Name)   -- only in the scope of a join condition: a column of `that`
   deriving DecidableEq, Repr
 
 abbrev Frame := List Col
@@ -44,6 +45,7 @@ abbrev Frame := List Col
 /-- what an identifier can denote -/
 inductive Cand where
   | column (input : Option Name) (name : Name)
+  | thatColumn (input : Option Name) (name : Name)          -- the same name filed under `that` is another declaration
   | global (name : Name)
   | inferred (input : Name) (name : Name)
   deriving DecidableEq, Repr
@@ -67,6 +69,12 @@ def Col.cand? (r : Ref) : Col → Option Cand
       match r.qual with
       | none => some (.column inp n)
       | some q => if inp = some q then some (.column inp n) else none
+    else none
+  | .thatSingle (some n) inp =>
+    if n = r.name then
+      match r.qual with
+      | none => some (.thatColumn inp n)
+      | some q => if inp = some q then some (.thatColumn inp n) else none
     else none
   | _ => none
 
@@ -142,6 +150,7 @@ def itemCol (env : Env) (scope : Frame) (it : Item) : Col :=
       | [r] =>
         match resolve env scope r with
         | .ok (.column inp n) => .single (some n) inp
+        | .ok (.thatColumn inp n) => .single (some n) inp
         | .ok (.inferred i n) => .single (some n) (some i)
         | _ => .single none none
       | _ => .single none none
@@ -174,11 +183,18 @@ inductive Source where
   | scalar                                              -- a scalar where a relation is required
   deriving DecidableEq, Repr
 
+/-- the right-hand frame as it is seen from a join condition: under `that` -/
+def asThat (fr : Frame) : Frame :=
+  fr.map fun c => match c with
+    | .single n i => .thatSingle n i
+    | c => c
+
 /-- `Lineage::rename` -/
 def renameInputs (n : Name) (fr : Frame) : Frame :=
   fr.map fun c => match c with
     | .single nm _ => .single nm (some n)
     | .all _ => .all n
+    | c => c
 
 def Source.frame (done : List Frame) : Source → Option Frame
   | .table n (some cols) => some (cols.map fun c => .single (some c) (some n))
@@ -247,7 +263,7 @@ def stepSites (env : Env) (done : List Frame) (fr : Frame) : Step → List (Fram
   | .groupWin keys srt => itemSites fr keys [] ++ itemSites (dropKeys env fr keys) srt []
   | .join right alias both left rght =>
     let rf := srcFrame done right alias
-    both.map (fun r => (fr ++ rf, r)) ++ left.map (fun r => (fr, r)) ++ rght.map (fun r => (rf, r))
+    both.map (fun r => (fr ++ asThat rf, r)) ++ left.map (fun r => (fr, r)) ++ rght.map (fun r => (rf, r))
   | .append _ => []
 
 structure Pipeline where
